@@ -313,6 +313,7 @@ impl Monitor for C07 {
         let mut rng = Rng::for_trial(cfg.seed, "C07", idx);
         let vi = (idx % 18) as usize;
         let n = nl[((idx / 18) % nl.len() as u64) as usize];
+        let n = super::jitter_n(cfg, n, 2, 64, &mut rng);
         let class = CLASSES[((idx / (18 * nl.len() as u64)) % CLASSES.len() as u64) as usize];
         let rep = idx / (18 * nl.len() * CLASSES.len()) as u64;
         let long = rep % 2 == 1;
